@@ -184,6 +184,13 @@ def make_case(rng, cid, T, depth, fmt, dtag, run="serial", pleaf=None, stale_p=0
         for par in pars[1:]:
             for k in kids(par):
                 leaves[k] = _leaf_matrix(rng, T, mode, dtag, values, rng.choice(["rand", "rand", "one", "row"]))
+    if shape == "one-leaf-per-slot" and depth >= 1:
+        # sparse filtered population: every parent of leaves has exactly ONE leaf, in slot 3, 2, 1, 0 in turn (the
+        # lower-right child first); with a tile filter whose live set is exactly the populated leaves
+        leaves = {}
+        for i, par in enumerate(level(depth - 1)):
+            k = kids(par)[(3 - i) % 4]
+            leaves[k] = _leaf_matrix(rng, T, mode, dtag, values, "const" if fmt == "jpg" else rng.choice(["rand", "full"]))
     if shape == "all-undefined-parent" and depth >= 1 and can_u:
         # a parent all of whose existing children are entirely undefined files written by a foreign tool
         keepu = True
@@ -208,6 +215,8 @@ def make_case(rng, cid, T, depth, fmt, dtag, run="serial", pleaf=None, stale_p=0
     live = set(all_leaves)
     if run.startswith("filter"):
         live = set(leaves) | set(l for l in all_leaves if rng.random() < 0.25)
+    if shape == "one-leaf-per-slot":
+        live = set(leaves)
     if mode == "Float":
         sv = (rng.choice([v for v in FLOAT_VALUES if v not in values] or [4]),)
     elif mode == "Int":
@@ -517,6 +526,11 @@ def _run_cascade(pio, base, meta, rec, run):
 def replay_case(job):
     """-> (findings, stats).  finding = (property, severity, key, message); severity V / D / M."""
     meta, rec = job
+    if meta.get("compare"):
+        # the real run has already happened (workflow cases): only compare its observations with TLC's record
+        import importlib
+        mod, fn = meta["compare"]
+        return getattr(importlib.import_module(mod), fn)(meta, rec)
     repo.setup()
     import numpy as np
     import warnings
@@ -734,6 +748,9 @@ def build_cases(ctx, T, depth, plan, parallel_plan, mult=1, allow_keepu=True, re
         return c
     for fmt, dtag, run in parallel_plan:         # first: they take longest and go into the first chunk
         can_u = CONFIGS[(fmt, dtag)] != "Int" and dtag != "rgb"
+        if run.startswith("filter"):
+            new(fmt, dtag, run=run, stale_p=0.5, shape="one-leaf-per-slot")
+            continue
         new(fmt, dtag, run=run, pleaf=rng.choice([0.5, 0.8, 1.0]), stale_p=0.5,
             shape=("full-then-four-partial" if can_u else "full-then-sparse") if run in ("par3", "par2") else None)
     for fmt, dtag, n2, n1 in plan:
@@ -797,7 +814,8 @@ def plan_binding(ctx, prop, plan, parallel_plan, only_fits=False, builder_runs=0
         parallel_plan = [p for p in parallel_plan if p[0] == "fits"]
     # ---- depth 2 (T = 4) and depth 1 (T = 4): all modes and formats
     for T, depth in ((4, 2), (4, 1)):
-        cases = build_cases(ctx, T, depth, plan, parallel_plan if depth == 2 else parallel_plan[:2], mult=1 if quick else 6,
+        cases = build_cases(ctx, T, depth, plan, parallel_plan if depth == 2 else ([p for p in parallel_plan if p[2].startswith("filter")][:1] + parallel_plan[:1]),
+                            mult=1 if quick else 6,
                             allow_keepu=allow_keepu, rewrite_p=rewrite_p)
         if builder_runs:
             fits_data = [c for c in cases if c["fmt"] == "fits" and c["has_finite"] and not c["keepu"] and c["run"] in ("serial", "cli", "par2")]
